@@ -106,7 +106,7 @@ func run(c *engine.Ctx) {
 
 func (r *runner) cardinality() {
 	kws := rfc6020.Keywords()
-	children := append(append([]string{}, kws...), "m:ext", "foo")
+	children := append(append([]string{}, kws...), "m:ext", "foo", "foo-colon-arg", "foo-prefixed-arg")
 	for _, parent := range kws {
 		if parent == "refine" || parent == "deviate" {
 			r.c.Add("unspecified_skipped", int64(3*len(children)))
@@ -135,6 +135,10 @@ func (r *runner) cardinality() {
 							extra = append(extra, "m:ext arg;")
 						case "foo":
 							extra = append(extra, "foo arg;")
+						case "foo-colon-arg": // an unknown unprefixed keyword stays unknown whatever its argument is
+							extra = append(extra, "foo \"RFC 6020: YANG\";")
+						case "foo-prefixed-arg":
+							extra = append(extra, "foo m:x { m:ext arg; }")
 						default:
 							extra = append(extra, g.stmt(child, "", nil))
 						}
@@ -175,7 +179,7 @@ func (r *runner) cardinality() {
 					card, known := table[child]
 					switch {
 					case child == "m:ext":
-					case child == "foo":
+					case strings.HasPrefix(child, "foo"):
 						if n > 0 {
 							expect = "reject"
 						}
@@ -189,6 +193,9 @@ func (r *runner) cardinality() {
 						}
 					}
 					needle := child + "|" + parent
+					if strings.HasPrefix(child, "foo") {
+						needle = "foo|" + parent
+					}
 					id := fmt.Sprintf("card:%s:%s:%d:%s", parent, child, n, where)
 					r.do(id, rec{text, expect, needle, fmt.Sprintf("%s>%s x%d", parent, child, n)}, n > 0 || expect == "reject")
 				}
